@@ -158,3 +158,52 @@ func TestLateProposalScript(t *testing.T) {
 		t.Fatalf("%d wedged", wedged)
 	}
 }
+
+// The amnesia script (both continuations) must leave every honest node agreeing on a correct tree.
+func TestAmnesiaScript(t *testing.T) {
+	total, starved, forks := 0, 0, 0
+	for _, cfg := range []struct {
+		n   int
+		byz []int
+	}{{4, []int{0}}, {4, []int{1}}, {4, []int{2}}, {4, []int{3}}, {7, []int{0, 3}}, {7, []int{5, 6}}} {
+		for a := 0; a < 4; a++ {
+			for c := 0; c < 2; c++ {
+				dir, _ := os.MkdirTemp("", "simam")
+				ps := make([]int64, cfg.n)
+				bz := make([]bool, cfg.n)
+				for i := range ps {
+					ps[i] = 1
+				}
+				for _, b := range cfg.byz {
+					bz[b] = true
+				}
+				net := New(Config{Powers: ps, Byz: bz, Dir: dir})
+				d := NewDriver(net)
+				seen := map[int64][]byte{}
+				net.OnCommit = func(n *Node, cm Committed) {
+					if prev, ok := seen[cm.Height]; ok && !bytes.Equal(prev, cm.Hash) {
+						forks++
+					}
+					seen[cm.Height] = cm.Hash
+				}
+				total++
+				ok := d.Apply(Op{K: "amnesia", A: a, C: c})
+				starved += d.Stats.Starved
+				t.Logf("n=%d byz=%v a=%d c=%d: ok=%v starved=%d commits=%d", cfg.n, cfg.byz, a, c, ok, d.Stats.Starved, len(seen))
+				net.Close()
+				os.RemoveAll(dir)
+			}
+		}
+	}
+	t.Logf("total %d, no-proposal continuation completed %d, forks %d", total, starved, forks)
+	if starved == 0 {
+		t.Fatalf("the no-proposal continuation never completes")
+	}
+	if os.Getenv("SIM_EXPECT_FORK") != "" {
+		if forks == 0 {
+			t.Fatalf("expected a fork on the mutated tree")
+		}
+	} else if forks > 0 {
+		t.Fatalf("%d forks", forks)
+	}
+}
